@@ -102,10 +102,11 @@ Record rinfo := mkR {
   r_basefail : bool;                   (* a failure that is not an Exception subclass was recorded *)
   r_failed_up : bool;                  (* ghost: a background payload failed while the runner was Up *)
   r_trigger : bool;                    (* ghost: a stop trigger (shutdown / SIGINT / KeyboardInterrupt) occurred *)
+  r_sigint : bool;                     (* a SIGINT was delivered while this runner held the guard *)
   r_home_aio : option (nat * nat);     (* (thread, loop) all asyncio payloads run on *)
   r_home_trio : option (nat * nat)
 }.
-Definition r0 : rinfo := mkR Idle false 0 0 [] false false false None None.
+Definition r0 : rinfo := mkR Idle false 0 0 [] false false false false None None.
 
 Record rt := mkRT {
   guard : option nat;                  (* guard.py: process-wide lock of `accept` *)
@@ -114,36 +115,52 @@ Record rt := mkRT {
   run_ : nat -> rinfo;
   rids : list nat;
   thr_tids : list nat;                 (* threads used by (non-executed) thread payloads *)
-  inside : list nat;                   (* payloads currently between Enter and Exit *)
-  interrupted : bool                   (* a SIGINT was delivered *)
+  inside : list nat                    (* payloads currently between Enter and Exit *)
 }.
-Definition init : rt := mkRT None (fun _ => p0) [] (fun _ => r0) [] [] [] false.
+Definition init : rt := mkRT None (fun _ => p0) [] (fun _ => r0) [] [] [].
 
 Definition upd {A} (f : nat -> A) (k : nat) (v : A) : nat -> A :=
   fun x => if x =? k then v else f x.
 
+Definition add_id (x : nat) (l : list nat) : list nat := if existsb (Nat.eqb x) l then l else x :: l.
 Definition set_pay (s : rt) (p : nat) (v : pinfo) : rt :=
-  mkRT (guard s) (upd (pay s) p v) (if existsb (Nat.eqb p) (pids s) then pids s else p :: pids s)
-       (run_ s) (rids s) (thr_tids s) (inside s) (interrupted s).
+  mkRT (guard s) (upd (pay s) p v) (add_id p (pids s)) (run_ s) (rids s) (thr_tids s) (inside s).
 Definition set_run (s : rt) (r : nat) (v : rinfo) : rt :=
-  mkRT (guard s) (pay s) (pids s) (upd (run_ s) r v)
-       (if existsb (Nat.eqb r) (rids s) then rids s else r :: rids s)
-       (thr_tids s) (inside s) (interrupted s).
+  mkRT (guard s) (pay s) (pids s) (upd (run_ s) r v) (add_id r (rids s)) (thr_tids s) (inside s).
 Definition set_guard (s : rt) (g : option nat) : rt :=
-  mkRT g (pay s) (pids s) (run_ s) (rids s) (thr_tids s) (inside s) (interrupted s).
+  mkRT g (pay s) (pids s) (run_ s) (rids s) (thr_tids s) (inside s).
 Definition set_thr (s : rt) (l : list nat) : rt :=
-  mkRT (guard s) (pay s) (pids s) (run_ s) (rids s) l (inside s) (interrupted s).
+  mkRT (guard s) (pay s) (pids s) (run_ s) (rids s) l (inside s).
 Definition set_inside (s : rt) (l : list nat) : rt :=
-  mkRT (guard s) (pay s) (pids s) (run_ s) (rids s) (thr_tids s) l (interrupted s).
-Definition set_interrupted (s : rt) : rt :=
-  mkRT (guard s) (pay s) (pids s) (run_ s) (rids s) (thr_tids s) (inside s) true.
+  mkRT (guard s) (pay s) (pids s) (run_ s) (rids s) (thr_tids s) l.
 
 Definition with_st (i : pinfo) (x : pst) : pinfo :=
   mkP x (p_flav i) (p_owner i) (p_origin i) (p_tid i) (p_loop i) (p_starts i) (p_cancels i)
       (p_cleans i) (p_adopting i) (p_exec_ret i).
 Definition with_phase (i : rinfo) (x : phase) : rinfo :=
   mkR x (r_running i) (r_shut_req i) (r_shut_ret i) (r_failures i) (r_basefail i) (r_failed_up i)
-      (r_trigger i) (r_home_aio i) (r_home_trio i).
+      (r_trigger i) (r_sigint i) (r_home_aio i) (r_home_trio i).
+Definition with_running (i : rinfo) : rinfo :=
+  mkR (r_phase i) true (r_shut_req i) (r_shut_ret i) (r_failures i) (r_basefail i) (r_failed_up i)
+      (r_trigger i) (r_sigint i) (r_home_aio i) (r_home_trio i).
+Definition with_shut (i : rinfo) (req ret : nat) : rinfo :=
+  mkR (r_phase i) (r_running i) req ret (r_failures i) (r_basefail i) (r_failed_up i)
+      (r_trigger i) (r_sigint i) (r_home_aio i) (r_home_trio i).
+Definition with_trigger (i : rinfo) : rinfo :=
+  mkR (r_phase i) (r_running i) (r_shut_req i) (r_shut_ret i) (r_failures i) (r_basefail i) (r_failed_up i)
+      true (r_sigint i) (r_home_aio i) (r_home_trio i).
+Definition with_sigint (i : rinfo) : rinfo :=
+  mkR (r_phase i) (r_running i) (r_shut_req i) (r_shut_ret i) (r_failures i) (r_basefail i) (r_failed_up i)
+      true true (r_home_aio i) (r_home_trio i).
+(* record a failure of a background payload: an Exception-like cause, or a non-Exception one *)
+Definition with_failure (i : rinfo) (c : option cause) (count_up : bool) : rinfo :=
+  mkR (r_phase i) (r_running i) (r_shut_req i) (r_shut_ret i)
+      (match c with Some x => x :: r_failures i | None => r_failures i end)
+      (match c with Some _ => r_basefail i | None => true end)
+      (count_up || r_failed_up i) (r_trigger i) (r_sigint i) (r_home_aio i) (r_home_trio i).
+Definition with_home (i : rinfo) (a t : option (nat * nat)) : rinfo :=
+  mkR (r_phase i) (r_running i) (r_shut_req i) (r_shut_ret i) (r_failures i) (r_basefail i) (r_failed_up i)
+      (r_trigger i) (r_sigint i) a t.
 
 Definition phase_live (ph : phase) : bool := match ph with Up | Closing _ => true | _ => false end.
 Definition phase_ended (ph : phase) : bool := match ph with Ended _ => true | _ => false end.
@@ -154,10 +171,8 @@ Definition home (i : rinfo) (f : flavour) : option (nat * nat) :=
   match f with Aio => r_home_aio i | Trio => r_home_trio i | Thr => None end.
 Definition set_home (i : rinfo) (f : flavour) (h : nat * nat) : rinfo :=
   match f with
-  | Aio => mkR (r_phase i) (r_running i) (r_shut_req i) (r_shut_ret i) (r_failures i) (r_basefail i)
-               (r_failed_up i) (r_trigger i) (Some h) (r_home_trio i)
-  | Trio => mkR (r_phase i) (r_running i) (r_shut_req i) (r_shut_ret i) (r_failures i) (r_basefail i)
-               (r_failed_up i) (r_trigger i) (r_home_aio i) (Some h)
+  | Aio => with_home i (Some h) (r_home_trio i)
+  | Trio => with_home i (r_home_aio i) (Some h)
   | Thr => i
   end.
 Definition home_tid (o : option (nat * nat)) (t : nat) : bool :=
@@ -190,16 +205,39 @@ Definition flush_queue (s : rt) (r : nat) : nat -> pinfo :=
            | _ => i
            end.
 
-Definition accept_end_ok (i : rinfo) (interrupted_ : bool) (o : aout) : bool :=
+Definition accept_end_ok (i : rinfo) (o : aout) : bool :=
   match r_phase i, o with
   | Rejected, AExclusive => true
   | Closing c, AReturned =>
-      match c with CFail => interrupted_ | _ => true end
+      match c with CFail => r_sigint i | _ => true end
   | Closing _, ARuntime cs =>
       negb (match cs with [] => true | _ => false end) && forallb (fun c => mem_cause c (r_failures i)) cs
   | Closing _, AOther => r_basefail i
   | _, _ => false
   end.
+
+(* asyncio_runner.py:37-50, thread_runner.py:36-49, trio_runner.py:76-80: how the end `o` of background
+   payload p (of flavour f) changes the record of its live runner *)
+Definition finish_rec (ri : rinfo) (p : nat) (f : flavour) (o : outcome) : rinfo :=
+  let up := phase_up (r_phase ri) in
+  let ph := if up then Closing CFail else r_phase ri in
+  match o with
+  | ORetNone => ri
+  | ORetVal _ => with_failure (with_phase ri ph) (Some (COrphan p)) up
+  | ORaiseExc _ => with_failure (with_phase ri ph) (Some (CExc p)) up
+  | ORaiseBase _ => with_failure (with_phase ri ph) None up
+  | OKbd =>
+      match f with
+      | Trio =>      (* surfaces as a BaseExceptionGroup from trio.run *)
+          with_trigger (with_failure (with_phase ri ph) None false)
+      | _ =>         (* asyncio_runner.py:40-41 / KeyboardInterrupt kills the loop: silent end *)
+          with_trigger (with_phase ri (if up then Closing CInt else r_phase ri))
+      end
+  end.
+
+(* guard.py:29-30: the lock is released when the guarded call of its holder ends *)
+Definition release (g : option nat) (r : nat) : option nat :=
+  match g with Some h => if h =? r then None else Some h | None => None end.
 
 Definition step_core (s : rt) (e : event) : option rt :=
   match e with
@@ -211,7 +249,7 @@ Definition step_core (s : rt) (e : event) : option rt :=
           match guard s with
           | None =>
               let s1 := mkRT (Some r) (flush_queue s r) (pids s) (run_ s) (rids s) (thr_tids s)
-                             (inside s) (interrupted s) in
+                             (inside s) in
               Some (set_run s1 r (with_phase i Up))
           | Some _ => Some (set_run s r (with_phase i Rejected))
           end
@@ -219,19 +257,14 @@ Definition step_core (s : rt) (e : event) : option rt :=
       end
   | AcceptEnd r o =>                                  (* meta_runner.py:65-76,84-102 *)
       let i := run_ s r in
-      if accept_end_ok i (interrupted s) o && (negb (phase_closing (r_phase i)) || settled s r) then
-        let s1 := set_run s r (with_phase i (Ended o)) in
-        Some (match guard s with
-              | Some g => if g =? r then set_guard s1 None else s1
-              | None => s1
-              end)
+      if accept_end_ok i o && (negb (phase_closing (r_phase i)) || settled s r) then
+        Some (set_guard (set_run s r (with_phase i (Ended o))) (release (guard s) r))
       else None
   | RunningSet r =>                                   (* service.py:176-177 *)
       let i := run_ s r in
       match r_phase i with
       | Idle | Rejected => None
-      | _ => Some (set_run s r (mkR (r_phase i) true (r_shut_req i) (r_shut_ret i) (r_failures i)
-                                    (r_basefail i) (r_failed_up i) (r_trigger i) (r_home_aio i) (r_home_trio i)))
+      | _ => Some (set_run s r (with_running i))
       end
   | ShutdownCall c r =>                               (* service.py:168-172; callers: outside threads, thread payloads *)
       let i := run_ s r in
@@ -241,24 +274,20 @@ Definition step_core (s : rt) (e : event) : option rt :=
                        end in
       if caller_ok && r_running i then
         let ph := match r_phase i with Up => Closing CStop | x => x end in
-        Some (set_run s r (mkR ph true (S (r_shut_req i)) (r_shut_ret i) (r_failures i) (r_basefail i)
-                               (r_failed_up i) true (r_home_aio i) (r_home_trio i)))
+        Some (set_run s r (with_trigger (with_shut (with_phase i ph) (S (r_shut_req i)) (r_shut_ret i))))
       else None
   | ShutdownEnd r ok =>
       let i := run_ s r in
       if ok && (r_shut_ret i <? r_shut_req i) then
-        Some (set_run s r (mkR (r_phase i) (r_running i) (r_shut_req i) (S (r_shut_ret i)) (r_failures i)
-                               (r_basefail i) (r_failed_up i) (r_trigger i) (r_home_aio i) (r_home_trio i)))
+        Some (set_run s r (with_shut i (r_shut_req i) (S (r_shut_ret i))))
       else None
   | Sigint =>                                         (* meta_runner.py:70-71,93-97 *)
-      let s1 := set_interrupted s in
       match guard s with
       | Some r =>
           let i := run_ s r in
           let ph := match r_phase i with Up => Closing CInt | x => x end in
-          Some (set_run s1 r (mkR ph (r_running i) (r_shut_req i) (r_shut_ret i) (r_failures i)
-                                  (r_basefail i) (r_failed_up i) true (r_home_aio i) (r_home_trio i)))
-      | None => Some s1
+          Some (set_run s r (with_sigint (with_phase i ph)))
+      | None => Some s
       end
   | AdoptCall c r p f =>                              (* service.py:144-153, meta_runner.py:41-54 *)
       match p_st (pay s p) with
@@ -352,46 +381,19 @@ Definition step_core (s : rt) (e : event) : option rt :=
       | PRun =>
           let r := p_owner i in
           let ri := run_ s r in
-          if coroutine (p_flav i) && phase_ended (r_phase ri) then None
+          if (coroutine (p_flav i) && phase_ended (r_phase ri)) || mem p (inside s) then None
           else
             let s1 := set_pay s p (with_st i (PDone o)) in
             if is_exec (p_origin i) || negb (phase_live (r_phase ri)) then Some s1
             else
-              (* asyncio_runner.py:37-50, thread_runner.py:36-49, trio_runner.py:76-80 *)
-              let up := phase_up (r_phase ri) in
-              match o with
-              | ORetNone => Some s1
-              | ORetVal _ =>
-                  Some (set_run s1 r (mkR (if up then Closing CFail else r_phase ri) (r_running ri)
-                          (r_shut_req ri) (r_shut_ret ri) (COrphan p :: r_failures ri) (r_basefail ri)
-                          (up || r_failed_up ri) (r_trigger ri) (r_home_aio ri) (r_home_trio ri)))
-              | ORaiseExc _ =>
-                  Some (set_run s1 r (mkR (if up then Closing CFail else r_phase ri) (r_running ri)
-                          (r_shut_req ri) (r_shut_ret ri) (CExc p :: r_failures ri) (r_basefail ri)
-                          (up || r_failed_up ri) (r_trigger ri) (r_home_aio ri) (r_home_trio ri)))
-              | ORaiseBase _ =>
-                  Some (set_run s1 r (mkR (if up then Closing CFail else r_phase ri) (r_running ri)
-                          (r_shut_req ri) (r_shut_ret ri) (r_failures ri) true
-                          (up || r_failed_up ri) (r_trigger ri) (r_home_aio ri) (r_home_trio ri)))
-              | OKbd =>
-                  match p_flav i with
-                  | Trio =>      (* surfaces as a BaseExceptionGroup from trio.run *)
-                      Some (set_run s1 r (mkR (if up then Closing CFail else r_phase ri) (r_running ri)
-                              (r_shut_req ri) (r_shut_ret ri) (r_failures ri) true
-                              (r_failed_up ri) true (r_home_aio ri) (r_home_trio ri)))
-                  | _ =>         (* asyncio_runner.py:40-41 / KeyboardInterrupt kills the loop: silent end *)
-                      Some (set_run s1 r (mkR (if up then Closing CInt else r_phase ri) (r_running ri)
-                              (r_shut_req ri) (r_shut_ret ri) (r_failures ri) (r_basefail ri)
-                              (r_failed_up ri) true (r_home_aio ri) (r_home_trio ri)))
-                  end
-              end
+              Some (set_run s1 r (finish_rec ri p (p_flav i) o))
       | _ => None
       end
   | Cancelled p =>                                    (* asyncio_runner.py:55-73, trio_runner.py:70-74 *)
       let i := pay s p in
       match p_st i with
       | PRun =>
-          if coroutine (p_flav i) && phase_closing (r_phase (run_ s (p_owner i))) then
+          if coroutine (p_flav i) && phase_closing (r_phase (run_ s (p_owner i))) && negb (mem p (inside s)) then
             Some (set_pay s p (mkP PCanc (p_flav i) (p_owner i) (p_origin i) (p_tid i) (p_loop i)
                                    (p_starts i) (S (p_cancels i)) (p_cleans i) (p_adopting i) (p_exec_ret i)))
           else None
